@@ -92,7 +92,7 @@ def handleOut (j : Json) : R Json := do
   let rules := Clem.Gen.ValidRules.rules
   let o := ensureDict out
   let badN := (numRules rules).filter (fun r => !(r.outOk e o))
-  let badE := (enumRules rules).filter (fun r => !(r.outOk o))
+  let badE := allEnum.filter (fun r => !(r.outOk e o))
   let seen := (numRules rules).filter (fun r => !r.out.isEmpty && r.active e && (outAt o r.out).isSome)
   pure (jObj [("bad_num", jArr (badN.map (fun r => jS r.path))),
               ("bad_enum", jArr (badE.map (fun r => jS r.path))),
